@@ -12,7 +12,9 @@ from .c03 import unify_syms
 THEOREMS = ['C16.translation_succeeds', 'C16.translation_accepted', 'C16.layout_independent',
             'C16.exec_proof_translated', 'C16.exec_proof_step_text_is_the_model', 'C16.exec_proof_text_is_the_model',
             'C16.converter_translated', 'C16.converter_text_state', 'C16.converter_text_is_the_model',
-            'C16.translation_text_is_the_model']
+            'C16.translation_text_is_the_model',
+            'C16.spec_coherent_of_shape', 'C16.in_fragment_of_shape', 'C16.converter_text_is_the_model_of_shape',
+            'C16.translation_text_is_the_model_of_shape', 'C16.fragment_shape_example']
 
 
 def image(t, float_order):
@@ -334,7 +336,8 @@ def run(rep):
         if not core.real_checker(unhex(x[1]), unhex(x[2]), unhex(x[3]), tag='c16b'):
             findings.append({'key': 'benchmark:' + b, 'what': f'translated benchmark {b} is rejected by the checker'})
     # ---- 6. the converter: specification dbOfMDb on the parsed database vs the model database built above from the generator's
-    # knowledge; generated converter (Pi2/Gen/MMConv.lean) vs the real MetamathConverter on every query; hypothesis InFragment
+    # knowledge; generated converter (Pi2/Gen/MMConv.lean) vs the real MetamathConverter on every query; hypotheses FragmentShape
+    # (of the ..._of_shape theorems) and InFragmentX evaluated on every generated database
     from .. import try_conv
     cf, n_spec, n_conv = try_conv.compare(cases, try_conv.EXTRA)
     findings += cf
